@@ -37,11 +37,19 @@ if SYMBOLIC:
         if getattr(_mod, "re", None) is not None:
             _mod.re = rx
             RX_BOUND.append(_mod.__name__)
-    # recompile class-level compiled patterns from their own source text
-    for _cls in (_tm.TokenMatcher,):
-        for _k, _v in list(vars(_cls).items()):
-            if hasattr(_v, "pattern") and hasattr(_v, "match") and not isinstance(_v, rx.Pattern):
-                setattr(_cls, _k, rx.compile(_v.pattern, _v.flags & ~32))
+    # recompile module-level and class-level compiled patterns of these modules from their own source text
+    import re as _real_re
+
+    def _rebind_patterns(ns, setter):
+        for _k, _v in list(ns.items()):
+            if isinstance(_v, _real_re.Pattern):
+                setter(_k, rx.compile(_v.pattern, _v.flags & ~_real_re.UNICODE))
+
+    for _mod in (_gl, _tm, _tmm, _pc):
+        _rebind_patterns(vars(_mod), lambda k, v, m=_mod: setattr(m, k, v))
+        for _cv in list(vars(_mod).values()):
+            if isinstance(_cv, type) and _cv.__module__ == _mod.__name__:
+                _rebind_patterns(dict(vars(_cv)), lambda k, v, c=_cv: setattr(c, k, v))
 
 
 def pick(i, options):
